@@ -255,6 +255,7 @@ func zzH_C05_equivocation() {
 		zzC05Process(st, s, cfg, header, zzC05Ev.Round, seen)
 		again := s.GetValidatorByMainAddr(addr)
 		zzverif.Assert(again.Token.Cmp(snapshot.Token) == 0 && again.ExpelExpired == snapshot.ExpelExpired, "a validator is penalised once per block for double signing")
+		zzverif.Assert(zzStatsFollow(s, 1), "the validator statistics follow the penalty (tokens, stake and count move from online to offline; also for a zero penalty)")
 	} else {
 		zzverif.Reach("not-penalised")
 		// only because a signature did not verify
